@@ -415,6 +415,23 @@ func TestC07(t *testing.T) {
 	for _, k := range gen.ConflictKinds {
 		rec.Require("conflict:"+k, 0.02)
 	}
+	// bounded family: conflict-free sets around special name pairs (gen.NamePairModuleSets), every order of the files
+	if ev.Shard() == 0 {
+		var n int64
+		for i, ms := range gen.NamePairModuleSets() {
+			base := modInputOf(ms)
+			for _, perm := range permutationsInt([]int{0, 1, 2}) {
+				in := base
+				in.Files = []gen.ModFileSpec{base.Files[perm[0]], base.Files[perm[1]], base.Files[perm[2]]}
+				n++
+				if msg := c07Check(in); msg != "" {
+					rec.Violation(in, fmt.Sprintf("name-pair family set #%d, file order %v: %s", i, perm, msg))
+					t.Fatalf("name-pair family set #%d, file order %v: %s\n%s", i, perm, msg, fileTexts(in))
+				}
+			}
+		}
+		rec.Bulk(n, n, map[string]int64{"name-pair-family:file-orders": n})
+	}
 	rapid.Check(t, func(rt *rapid.T) {
 		noiseCall(rt) // one case in three is preceded by an unrelated, mostly failing call (see noise_test.go)
 		ms := gen.Modules(rt, gen.ModOpts{MaxConflicts: 2, Layout: true, CaseNames: true, Twice: true, EmptySelfExt: true, GlueNames: true, BigExt: true, Scale: true})
@@ -532,6 +549,20 @@ func TestC12(t *testing.T) {
 	rec.Assume("which of two clashing files is blamed may follow list order, so error content is compared between repeated calls on one list, not across permutations")
 	rec.Require("set:two-or-more-extending-files", 0.5)
 	rec.Require("set:two-or-more-conflicts", 0.15)
+	// bounded family: conflict-free sets around special name pairs, all six orders of the three files at once
+	if ev.Shard() == 0 {
+		var n int64
+		for i, ms := range gen.NamePairModuleSets() {
+			in := modInputOf(ms)
+			in.Perms = permutationsInt([]int{0, 1, 2})
+			n++
+			if msg := c12Check(in); msg != "" {
+				rec.Violation(in, fmt.Sprintf("name-pair family set #%d: %s", i, msg))
+				t.Fatalf("name-pair family set #%d: %s\n%s", i, msg, fileTexts(in))
+			}
+		}
+		rec.Bulk(n, n, map[string]int64{"name-pair-family:sets": n})
+	}
 	rapid.Check(t, func(rt *rapid.T) {
 		noiseCall(rt) // one case in three is preceded by an unrelated, mostly failing call (see noise_test.go)
 		ms := gen.Modules(rt, gen.ModOpts{MaxConflicts: 3, MinExtFiles: 2, MaxFiles: 5, MultiDup: true, CaseNames: true, Layout: true, BigExt: true, Scale: true})
